@@ -406,9 +406,12 @@ MANIFEST = {
     "technique": "Coq theorems on the API handle ledger (translator-tied) and the modelled session core + sanitizer-backed adversarial API histories over type-mutated schemas",
     "text": "Partial by nature: Properties_C01.v proves that under any sequence of get_*/free_* calls no allocation handed out by the API is freed "
             "twice and each is released by the matching free (tied to the current rime_api_impl.h by a clang-AST translator), and totality of the "
-            "modelled session core; crash/hang/UB freedom of the rest of the C++ is explored, not proved: adversarial API histories on the "
-            "Debug+ASan+UBSan build over stock schemas and one-node type mutations of synthetic schemas, any sanitizer report/signal/timeout "
-            "being a concrete, shrunk replay.",
+            "modelled session core (no undefined operation over all API histories for the plain chain, also with key_binder and - round 4 - "
+            "ascii_composer in front: C01_core_total, C01_core_total_synth_kbplain, C01_core_total_synth_acplain; the constants of "
+            "AsciiComposer::ProcessKeyEvent the model uses are re-read from the source, C01_ascii_composer_source_constants); crash/hang/UB freedom of the rest of the C++ is explored, not proved: adversarial API histories on the "
+            "Debug+ASan+UBSan build over stock schemas, one-node type mutations of synthetic schemas (sample stratified by section) and "
+            "ragged multi-node variants, half of the histories with a notification handler that re-enters the session API, any sanitizer "
+            "report/signal/timeout being a concrete, shrunk replay.",
     "note": "Trusted: Coq kernel, the translator, ASan/UBSan as oracle for unmodelled code. The exploration part is testing and bounded by its generators; "
             "deployment-time crashes on mutated schemas are recorded, not judged.",
 }
